@@ -20,6 +20,8 @@ def norm_res(res, op=None):
     r = res.get("r")
     if op is not None and op.get("abort_at") and op.get("op") == "scan":
         return ["ABORTABLE"]  # where the cancellation lands may depend on set iteration order
+    if r in ("IOFAULT", "IOFAULT_SWALLOWED"):
+        return ["IOFAULT", res.get("ev_after")]  # F15: only the evaluable is comparable
     if res.get("tainted") or r == "ABORTED":
         return ["CANCELLED-OBJECT", res.get("ev_after")]  # only the evaluable is comparable
     if r == "exc":
@@ -61,6 +63,9 @@ def run_one(plan, executor, judge, generators, want_log, tag):
         for k, v in result["probes"]["aborts"].items():
             if v:
                 pr[f"cancellation_{k}"] = pr.get(f"cancellation_{k}", 0) + v
+        for k, v in (result["probes"].get("io_faults") or {}).items():
+            if v:
+                pr[f"io_fault_{k}"] = pr.get(f"io_fault_{k}", 0) + v
         if result["probes"]["evaluable_address_reused"]:
             pr["evaluable_address_reused"] = result["probes"]["evaluable_address_reused"]
     sched = [[e["c"], e["op"]["op"], e["op"].get("m"), e["op"].get("obj"), e["op"].get("ev"),
